@@ -17,7 +17,7 @@ META = {
     "outside": "dpkt's parsing of real pcapng containers (C struct code, stubbed); swtpm logs outside the documented "
                "layout except for one arbitrary character at a payload nibble position",
     "assumptions": ["stub: tpmstream.io.pcapng.marshal.dpkt replaced by an object whose Reader yields the harness's packets"],
-    "wall_budget_s": {"quick": 260, "thorough": 1500},
+    "wall_budget_s": {"quick": 260, "thorough": 840},
 }
 WS = (9, 10, 11, 12, 13, 32)
 
